@@ -42,6 +42,29 @@ fn first_diff(a: &[u64], b: &[u64]) -> String {
     }
 }
 
+/// Operations with `y >= 64` are "absorb a peer": a fresh instance of the same configuration
+/// receives 1..3 plain additions derived from (x, y) and is then union()ed / merge()d into the
+/// target - state that arrives without one insert / add on the receiver itself. Structures without
+/// such an operation treat the operation as an ordinary one. Returns (result code, number of
+/// additions that arrived, true if it was an absorb).
+fn do_op(t: &mut dyn Life, case: &LifeCase, x: u64, y: u64) -> (u64, u64, bool) {
+    if y >= 64 {
+        let mut peer = build_life(&case.kind, case.hasher, case.rng_seed ^ 0xab50 ^ x, &[], 0, case.alphabet);
+        let mut n = 0u64;
+        for j in 0..(1 + y % 3) {
+            let k = if j == 0 { x } else { case.keys[((x ^ y).wrapping_add(j) % case.keys.len() as u64) as usize] };
+            if peer.apply(k, 0).1 {
+                n += 1;
+            }
+        }
+        if let Some(r) = t.absorb_dyn(peer.as_ref()) {
+            return (r + 8, if r == 0 { n } else { 0 }, true);
+        }
+    }
+    let (r, ok) = t.apply(x, y % 64);
+    (r, ok as u64, false)
+}
+
 pub fn gen_lkind(g: &mut Sm, which: u64, nops: usize) -> LKind {
     let realistic = g.chance(1, 6);
     match which {
@@ -76,7 +99,7 @@ pub fn gen_lkind(g: &mut Sm, which: u64, nops: usize) -> LKind {
 impl Scenario for S7 {
     type Case = LifeCase;
     const NAME: &'static str = "S7-lifecycle";
-    const RULE: &'static str = "one of the nine structures (T-Digest with each scale function) with a seeded configuration; prefix of 0..2000 operations (tiny filters, so failed inserts occur), clear(), continuation of 1..600 operations applied in lock-step to a fresh instance (RNG stream aligned); clones taken at a seeded instant are checked in both directions";
+    const RULE: &'static str = "one of the nine structures (T-Digest with each scale function) with a seeded configuration; prefix of 0..2000 operations (tiny filters, so failed inserts occur; in half of the runs an eighth, a half or all of the operations union / merge a small peer of the same configuration into the instance), clear(), continuation of 1..600 operations applied in lock-step to a fresh instance (RNG stream aligned); clones taken at a seeded instant are checked in both directions";
 
     fn generate(seed: u64, run: u64, _prop: &'static str, tier: Tier) -> LifeCase {
         let mut g = Sm::new(seed);
@@ -112,9 +135,12 @@ impl Scenario for S7 {
         };
         let keys: Vec<u64> = (0..nk).map(|_| key(&mut g)).collect();
         let hot = g.range(1, nk as u64) as usize;
+        // share of "absorb a peer" operations: none in half of the runs, all of them in a sixth
+        let absorb = *g.pick(&[0u64, 0, 0, 1, 4, 8]);
         let op = |g: &mut Sm| -> (u64, u64) {
             let a = if g.chance(3, 4) { keys[g.usize(hot)] } else { key(g) };
-            (a, g.below(64))
+            let b = g.below(64);
+            (a, if g.below(8) < absorb { b + 64 } else { b })
         };
         let prefix: Vec<(u64, u64)> = (0..np).map(|_| op(&mut g)).collect();
         let cont: Vec<(u64, u64)> = (0..nc).map(|_| op(&mut g)).collect();
@@ -149,13 +175,17 @@ impl Scenario for S7 {
                     stats.fault("fork");
                     fork = Some((c, oc));
                 }
-                let (res, ok) = a.apply(x, y);
+                let (res, n_added, absorbed) = do_op(a.as_mut(), case, x, y);
+                let ok = n_added > 0;
+                if absorbed {
+                    stats.fault(if res == 8 { "absorb_peer" } else { "absorb_peer_refused" });
+                }
                 stats.steps += 1;
                 if i < 24 {
-                    stats.sig(res.min(3));
+                    stats.sig(res.min(3) + if absorbed { 16 } else { 0 });
                 }
                 if ok {
-                    added += 1;
+                    added += n_added;
                 } else if res == 2 {
                     stats.fault("full_insert");
                 } else if res == 4 {
@@ -180,6 +210,9 @@ impl Scenario for S7 {
             step = case.prefix.len() + 1;
             a.clear();
             stats.fault("node_restart");
+            if !case.prefix.is_empty() && case.prefix.iter().all(|o| o.1 >= 64) {
+                stats.probe("restart_of_state_that_arrived_by_absorb_only");
+            }
             stats.sig(case.prefix.len() as u64);
             stats.sig(case.cont.len() as u64);
             let pos = a.rng_pos();
@@ -199,14 +232,15 @@ impl Scenario for S7 {
             added = 0;
             for (i, &(x, y)) in case.cont.iter().enumerate() {
                 step = case.prefix.len() + 2 + i;
-                let (ra, oka) = a.apply(x, y);
-                let (rf, _) = f.apply(x, y);
+                let (ra, na, _) = do_op(a.as_mut(), case, x, y);
+                let (rf, _, _) = do_op(f.as_mut(), case, x, y);
+                let oka = na > 0;
                 stats.steps += 1;
                 if i < 24 {
                     stats.sig(ra.min(3) + 4);
                 }
                 if oka {
-                    added += 1;
+                    added += na;
                 } else if ra == 4 {
                     added = added.saturating_sub(1);
                 }
@@ -270,8 +304,8 @@ impl Scenario for S7 {
                     }
                     let mut a2 = a.fork();
                     for (i, &(x, y)) in case.cont.iter().take(40).enumerate() {
-                        let (r1, _) = dst.apply(x, y);
-                        let (r2, _) = a2.apply(x, y);
+                        let (r1, _, _) = do_op(dst.as_mut(), case, x, y);
+                        let (r2, _, _) = do_op(a2.as_mut(), case, x, y);
                         let (o1, o2) = (dst.observe(keys), a2.observe(keys));
                         if r1 != r2 || o1 != o2 {
                             viol.push(v(format!("{}/clone_from/diverges", name), step, format!("operation {} after clone_from: result {} vs {} on a clone() of the same source; {}", i + 1, r1, r2, first_diff(&o1, &o2))));
